@@ -619,6 +619,48 @@ func verifC12Sys(id string, seed int64) *verifSys {
 		case "start":
 			m.Calls--
 			r = V.StartSMP("", []byte("x"))
+			if r.Err == "" && r.Panic == "" && !m.Ended && V.C.IsEncrypted() {
+				// whatever state the call was made in, it starts an honest run: the peer answers with the same
+				// secret and nothing else interferes, so both must report success
+				w.push(1, r.Out)
+				succ := [2]int{}
+				var evs [2][]string
+				for step := 0; step < 20; step++ {
+					moved := false
+					for to := 0; to < 2; to++ {
+						if len(w.Q[to]) == 0 {
+							continue
+						}
+						moved = true
+						rr := w.P[to].Receive(w.pop(to))
+						out := rr.Out
+						all := rr.Events
+						for _, ev := range rr.Events {
+							if ev.Kind == 'P' && to == 0 && (SMPEvent(ev.Code) == SMPEventAskForSecret || SMPEvent(ev.Code) == SMPEventAskForAnswer) {
+								a := w.P[0].AnswerSMP([]byte("x"))
+								out = append(out, a.Out...)
+								all = append(all, a.Events...)
+							}
+						}
+						for _, ev := range all {
+							if ev.Kind == 'P' {
+								evs[to] = append(evs[to], SMPEvent(ev.Code).String())
+								if SMPEvent(ev.Code) == SMPEventSuccess {
+									succ[to]++
+								}
+							}
+						}
+						w.push(to, out)
+					}
+					if !moved {
+						break
+					}
+				}
+				if succ[0] != 1 || succ[1] != 1 {
+					return []verifFinding{{"C12:honest-run-after-unexpected-start-fails", fmt.Sprintf("StartAuthenticate (victim in some SMP state after %d foreign message(s)) began a run that the peer answered with the same secret; events peer=%v victim=%v", nm-m.Msgs, evs[0], evs[1])}}
+				}
+				return nil
+			}
 		case "answer":
 			m.Calls--
 			r = V.AnswerSMP([]byte("x"))
